@@ -187,6 +187,13 @@ func (a *authSessionHandler) completeLoginProtocolPhaseAndInitialize(player *con
 		player.Disconnect(alreadyConnected)
 		return
 	}
+	if !player.Active() {
+		// The connection was closed from another goroutine while the login was completing.
+		// Its teardown may have run before the registration above and found nothing to
+		// unregister, so take the registration back here (a no-op if the teardown did).
+		a.registrar.unregisterConnection(player)
+		return
+	}
 
 	loginSuccess := &packet.ServerLoginSuccess{
 		UUID:       player.ID(),
